@@ -357,6 +357,9 @@ fn run_init(
         ..Default::default()
     };
 
+    // Reject invalid settings before they are written into a configuration file
+    config.validate()?;
+
     // Determine file format and save
     if is_tauri_config {
         // For tauri.conf.json, require it to exist
